@@ -50,14 +50,51 @@ from . import chn_common as cc
 ID = "C11"
 MOD = "harness.props.c11"
 T = "MetadorModel.C11."
+B = "MetadorModel.Bridge.PatchSteps."
+BM = "MetadorModel.Bridge."
 LEAN = dict(
-    modules=["MetadorModel.Props.C11"],
+    modules=["MetadorModel.Props.C11",
+             # translated tie (harness/translate_c11.py -> Gen/PatchSteps.lean): one module per method, so that a broken
+             # obligation names the method; PatchStepsModel / PatchStepsCrash import nothing generated
+             BM + "PatchStepsModel", BM + "PatchStepsCrash", BM + "PatchSteps", BM + "PatchStepsCreate",
+             BM + "PatchStepsDiscard", BM + "PatchStepsCommit", BM + "PatchStepsClose", BM + "PatchStepsSave"],
     theorems=[T + n for n in [
         "crash_frame", "crash_committed_opens", "torn_create_classified", "torn_classified", "reach_newfile",
         "crash_trichotomy", "uncommitted_recognisable", "committed_state_verified",
-        "recover_reopens", "reopen_only_uncommitted", "create_only_fresh", "prefix_open_refused"]],
+        "recover_reopens", "reopen_only_uncommitted", "create_only_fresh", "prefix_open_refused"]] + [B + n for n in [
+        # the step sequences (hand-written closed forms) are the record model (C02/C03's `createPatch`, ...)
+        "createPatchW_res", "commitPlainW_res", "commitMFW_res", "discardW_res", "closeW_res", "onDisk_of_inv",
+        # the regenerated methods are the step sequences / the record model
+        "gen_constants", "gen_manifest_filepath", "gen_has_writable", "gen_expect_open", "gen_mode", "gen_expect_not_ro",
+        "gen_ublock_last", "gen_set_ublock_last",
+        "gen_ub_create_some", "gen_ub_create_none", "gen_new_container", "gen_create_patch", "gen_create_patch_model",
+        "gen_delete_latest_container", "gen_discard_patch", "gen_discard_patch_model",
+        "gen_commit_patch", "gen_commit_patch_model", "gen_manifest", "gen_mf_commit_patch", "gen_mf_commit_patch_model",
+        "gen_dispatch_commit_patch", "gen_close_loop", "gen_close", "gen_close_model",
+        # IH5UserBlock.save at byte level
+        "Bytes.gen_constants", "Bytes.gen_save", "Bytes.gen_save_writes", "Bytes.gen_save_prefix"]] + [
+        # every crash state of the step sequences is a `Crash.Reach` state
+        BM + "PatchCrash." + n for n in [
+            "CrashOf.of_prefix", "session_crash_reach", "recover_crash_reach", "discard_crash_reach",
+            "steps_session_crash", "createPatchW_trace", "commitPlainW_trace"]],
     drivers=["drv_chn"],
 )
+
+
+def translate(ctx):
+    """regenerate Gen/PatchSteps.lean from the current source: `_new_container`, `create_patch`, `discard_patch`,
+    `commit_patch` (both classes), `close`, the guards, `IH5UserBlock.create` / `save`, `_manifest_filepath`"""
+    from .. import translate_c11
+    try:
+        # a method that cannot be translated is left out of the generated file (the others stay), then TranslateError
+        # is raised: only the bridge modules about that method fail to build
+        return translate_c11.write(lean)
+    except translate_c11.TranslateError:
+        raise
+    except Exception as e:  # noqa: BLE001
+        # leave no text of an earlier run (possibly of another tree) behind
+        translate_c11.write_stub(lean, "%s: %s" % (type(e).__name__, e))
+        raise
 
 
 def _runs(s):
